@@ -25,12 +25,13 @@ PROPS["C19"] = {
 }
 
 PROPS["C18"] = {
-    "model_targets": ["model/KeysCheck.vo"],
-    "harness": [{"cmd": "keys", "quick": ["-n", 3000], "thorough": ["-n", 120000, "-shard", 400]}],
+    "model_targets": ["model/KeysCheck.vo", "model/PaginateCheck.vo"],
+    "harness": [{"cmd": "keys", "quick": ["-n", 3000], "thorough": ["-n", 120000, "-shard", 400]},
+                {"cmd": "lists", "quick": ["-n", 2, "-blocks", 8, "-only", "streams"], "thorough": ["-n", 40, "-blocks", 16, "-only", "streams", "-shard", 1500], "timeout": 7200}],
     "trusted_base": ["modelled: the key builders/parsers of x/{enterprise,wrkchain,beacon,stream}/types/keys.go as byte lists; that each module owns a separate KV store is a wiring fact read by the translator (store keys in app.go)",
                      "the prefix-store stripping done by the SDK (prefix.NewStore) is modelled as skipn (length prefix)"],
     "assumptions": ["ids/heights are uint64; addresses have 1..255 bytes"],
-    "level_text": "Coq theorems over all uint64 ids/heights and all addresses of 1..255 bytes: every key encoder is injective; set/delete at one key never changes the read at another (store model); every iteration prefix selects exactly its own section (incl. per-registration record ranges and the per-receiver stream range); big-endian order = numeric order (ids, (id,height) lexicographic); stream keys parse back to exactly (receiver, sender) on every path the queries use. The byte-level model is compared with the real Go builders/parsers on boundary x random keys inside Coq on every run, and the injectivity/order/round-trip laws are also evaluated directly on the implementation's bytes.",
+    "level_text": "Coq theorems over all uint64 ids/heights and all addresses of 1..255 bytes: every key encoder is injective; set/delete at one key never changes the read at another (store model); every iteration prefix selects exactly its own section (incl. per-registration record ranges and the per-receiver stream range); big-endian order = numeric order (ids, (id,height) lexicographic); stream keys parse back to exactly (receiver, sender) on every path the queries use (and the three stream list queries of the real application, on states with addresses of many lengths incl. senders ending in <len><another address>, must list every stream with the pair it is stored under). The byte-level model is compared with the real Go builders/parsers on boundary x random keys inside Coq on every run, and the injectivity/order/round-trip laws are also evaluated directly on the implementation's bytes.",
     "level_note": "Trusted: Coq kernel; the hand-written byte model and its agreement with keys.go as far as generated keys go; separate stores per module (app wiring). One defect found by the proof (uint8 wrap for 255-byte senders) was repaired by a fix: commit and is kept as a _legacy refutation.",
     "technique": "Coq proof over list N byte strings + in-Coq differential check of the key builders/parsers",
 }
@@ -85,7 +86,8 @@ app_prop("C11", "stream,strgov", ["str", "bank"],
     extra_harness={"harness": [{"cmd": "streamfn", "quick": ["-n", 3000], "thorough": ["-n", 200000, "-shard", 4000]}], "model_targets": ["model/StreamFnCheck.vo"]})
 app_prop("C12", "stream,strgov", ["str", "bank"],
     "Coq theorems: in every state satisfying the stream invariant a claim on a funded stream succeeds, a cancel succeeds and refunds the unreleased remainder, an affordable top-up succeeds when the new zero time is representable; claim and cancel never return an arithmetic panic. The unrepresentable-top-up class is exhibited as a machine-checked witness (listed finding). Replayed against real histories with 18-decimal amounts above 2^63 and fee rates incl. 1.",
-    "Trusted: as C10.")
+    "Trusted: as C10.",
+    extra_harness={"harness": [{"cmd": "params", "quick": ["-n", 1500], "thorough": ["-n", 50000, "-shard", 4000]}], "model_targets": ["model/ParamsCheck.vo"]})
 
 app_prop("C03", "ent,entgov,mixed", ["ent"],
     "Coq theorems over all histories of the enterprise model (messages, BeginBlock, governance parameter updates, fee unlocks): raising needs a whitelisted purchaser; a decision needs a current signer, a raised order and no earlier decision by that signer (decision signers of an order are pairwise distinct in every reachable state); the tally is exactly the stated rule for all valid parameters (Go's int()/uint64 casts proved harmless); status moves only nil->raised->accepted->completed or raised->rejected and terminal orders are bit-for-bit frozen; an order accepted before a BeginBlock is completed in it, crediting exactly its amount to locked[purchaser], totalLocked and supply, once. Replayed against real histories; the tally rule is also recomputed independently on the real application at every BeginBlock.",
@@ -97,13 +99,13 @@ app_prop("C04", "efund,efund,fees", ["ent", "bank"],
 app_prop("C06", "fees,efund", ["result"],
     "Coq theorems: if CheckTx admits a transaction with top-level WRKChain (resp. BEACON) messages then the amount offered in the module's fee denomination equals exactly the sum of the registration / record / per-slot fees of those messages under the current parameters, and liquid + locked funds of the payer cover it - for every accompanying denomination, order and multiplicity (permutation-invariance and additivity proved); slot counts >= 2^63 are rejected. The two listed gaps are machine-checked witnesses (mixed WRKChain+BEACON; registry message nested in MsgExec). CheckTx results of the real application are compared with the model (error classes: wrong denom / insufficient / too much / exceeds max storage) and with an independent fee oracle.",
     "Trusted: as C03; fee decorators run only in CheckTx (ctx.IsCheckTx), which is what the property speaks about.", quick_n=60)
-app_prop("C13", "mixed,entgov,reg,stream", ["ent", "wrk", "bcn", "str", "params"],
+app_prop("C13", "mixed,entgov,reg,stream,efund", ["ent", "wrk", "bcn", "str", "params", "bank"],
     "Coq theorems: a message executes successfully only if its signer is entitled in the state in which it runs (whitelisted purchaser, current enterprise signer, registered owner, the stream's sender / receiver, the governance authority), recursively through MsgExec where every inner message runs for the grantee itself or for a granter whose grant exists at that point; a non-entitled message is an error; a transaction lacking valid signatures changes nothing; user transactions can never change parameters (no grant is ever issued by a module account: invariant). GetSigners fields are read from the source by the translator (wiring_get_signers). Replayed against real histories crossing message types with signers.",
     "Trusted: as C03; signature verification itself is the SDK's (one bit per transaction in the model).")
 app_prop("C14", "mixed,fees,ent", ["ent", "wrk", "bcn", "str", "params", "bank"],
     "Coq theorems: a transaction that fails before execution leaves the state unchanged; one whose k-th message fails (error or panic, every k) keeps exactly the ante stage's effects, and the ante stage touches only fee balances and - for registry transactions - the locked/spent books; CheckTx never executes messages; governance proposals are atomic; EndBlock is total. App-level (props/C14app.v): BeginBlock never panics in reachable states outside the listed class (enterprise denomination changed while an accepted order waits), which is a machine-checked witness. Replayed against real histories with panicking messages; every failed real transaction is checked to change nothing but fee/unlock observables.",
     "Trusted: as C03. Partial: that baseapp.runTx really recovers panics and discards its caches is runtime behaviour - validated by the correspondence (panicking messages occur in the histories), not proved.")
-app_prop("C16", "mixed,entgov,reggov,strgov", ["params"],
+app_prop("C16", "mixed,entgov,reggov,strgov", ["params", "ent", "wrk", "bcn", "str"],
     "Coq theorems: each Params.Validate is equivalent to the stated validity predicate (with Go's casts); an update with any invalid field is rejected as a whole; stored parameters are valid in every reachable state of the node (deliver, check and committed states); only a governance update changes parameters and the new values are what every later fee check, limit check, tally and fee split reads (rewriting lemmas). Validate() of the four real modules is compared with the model on generated parameter structures; governance updates are executed mid-history on the real chain.",
     "Trusted: as C03.",
     extra_harness={"harness": [{"cmd": "params", "quick": ["-n", 3000], "thorough": ["-n", 100000, "-shard", 4000]}], "model_targets": ["model/ParamsCheck.vo"]})
